@@ -31,7 +31,8 @@ ANCHORS = ['recursiveloader:ManifestLoader.verify_and_load',
 REQUIRED = ['recursiveloader:ManifestLoader.verify_and_load', 'chain_invariant_checks',
             'api:assert_directory_verifies-root', 'api:find_dist_entry',
             'baseline_accepts', 'stealth_cases_judged', 'weak_cases_judged',
-            'twin_cases_judged', 'api:assert_directory_verifies-dir-k']
+            'twin_cases_judged', 'api:assert_directory_verifies-dir-k',
+            'double_cases_judged']
 ASSUMPTIONS = ['update mode deliberately loads without verification; only loaders '
                'that were not asked to update are covered',
                'the attacker cannot produce hash collisions']
@@ -67,6 +68,12 @@ def units(tier, seed):
         for draw in range(6 if tier == 'quick' else 40):
             u.append({'k': 'chain', 'depth': depth, 'tamper': 'change',
                       'draw': 300 + draw, 'twin': True})
+    # every sub-Manifest listed by two accepted Manifests with disjoint hash sets;
+    # the attacker keeps sizes and timestamps
+    for depth in (1, 2, 3):
+        for draw in range(2 if tier == 'quick' else 10):
+            u.append({'k': 'chain', 'depth': depth, 'tamper': 'change',
+                      'draw': 400 + draw, 'stealth': 'STEALTH', 'double': True})
     if tier == 'quick':
         for depth in (4, 5):
             for t in TAMPERS:
@@ -78,7 +85,7 @@ def setup_worker(ctx):
     common.use_repo()
 
 
-def build(rng, root, depth, weak=None):
+def build(rng, root, depth, weak=None, double=False):
     """Nested chain with data files at every level and DIST entries.  With
     @weak, every Manifest is plain and the MANIFEST entries carry only hash names
     that cannot be computed here (an unverifiable link)."""
@@ -88,6 +95,7 @@ def build(rng, root, depth, weak=None):
     for nm in names:
         dirs.append((dirs[-1] + '/' if dirs[-1] else '') + nm)
     prev = None
+    prev2 = None
     chain = []
     files = {}
     for li, d in enumerate(dirs):
@@ -102,8 +110,24 @@ def build(rng, root, depth, weak=None):
                  'size': 0, 'sums': {},
                  '_auto': [weak] if weak and weak != 'STEALTH'
                  else glayout.rand_hashes(rng, False)})
+        if prev2 is not None:
+            # double reference: the Manifest of this level is also listed by the second
+            # Manifest of the level above, with a hash set disjoint from the first
+            p2dir = os.path.dirname(prev2)
+            layout['mans'][prev2]['entries'].append(
+                {'tag': 'MANIFEST', 'path': os.path.relpath(mp, p2dir or '.'),
+                 'size': 0, 'sums': {}, '_auto': ['BLAKE2B', 'SHA512']})
+            layout['mans'][prev]['entries'][-1]['_auto'] = ['SHA256']
+            prev2 = None
         chain.append(mp)
         target = mp
+        if double:
+            m2 = (d + '/' if d else '') + 'Manifest.legacy'
+            layout['mans'][m2] = {'fmt': 'plain', 'parent': mp, 'entries': []}
+            layout['mans'][mp]['entries'].append(
+                {'tag': 'MANIFEST', 'path': 'Manifest.legacy', 'size': 0,
+                 'sums': {}, '_auto': ['SHA1']})
+            prev2 = m2
         if rng.random() < 0.3 and not weak:
             fmt2 = rng.choice(glayout.FMTS)
             m2 = (d + '/' if d else '') + glayout.man_name('Manifest.files', fmt2)
@@ -127,6 +151,11 @@ def build(rng, root, depth, weak=None):
             {'tag': 'DIST', 'path': 'dist-%d.tar' % li, 'size': 10 + li,
              'sums': {'SHA512': '%0128x' % rng.getrandbits(512)}})
     glayout.render(root, layout)
+    if double:
+        # the cross references (second Manifest of one level -> Manifest of the next)
+        # are not parent links: repeat until every recorded size / digest is final
+        for _ in range(depth + 2):
+            glayout.render(root, layout)
     return layout, dirs, chain, files
 
 
@@ -224,6 +253,12 @@ def run_case(ctx, root, case, layout, dirs, chain, files):
     if k > idx:
         k = idx
         forged = [tman]
+    if case.get('double'):
+        # the attacker also recomputes the second Manifest of every forged level
+        # (it lists the forged Manifest of the level below)
+        forged = list(forged) + [
+            os.path.join(os.path.dirname(fm), 'Manifest.legacy') for fm in forged
+            if os.path.join(os.path.dirname(fm), 'Manifest.legacy') in layout['mans']]
     for fm in forged:
         if case.get('weak') or case.get('stealth'):
             continue        # sizes must stay equal: no marker
@@ -235,6 +270,9 @@ def run_case(ctx, root, case, layout, dirs, chain, files):
             st = os.stat(os.path.join(root, fm))
             stamps[fm] = (st.st_atime_ns, st.st_mtime_ns, st.st_size)
     glayout.render(root, layout, only=set(forged))
+    if case.get('double'):
+        for _ in range(case['depth'] + 2):
+            glayout.render(root, layout, only=set(forged))
     if case.get('stealth'):
         # rewritten in place (same inode), same size, timestamps put back
         for fm, (at, mt, sz) in stamps.items():
@@ -262,6 +300,8 @@ def run_case(ctx, root, case, layout, dirs, chain, files):
                   tuple(layout['mans'][c]['fmt'] for c in chain)),
              case=case, klass=api)
     ctx.count('api:' + api)
+    if case.get('double'):
+        ctx.count('double_cases_judged')
     if case.get('stealth'):
         ctx.count('stealth_cases_judged')
     if case.get('weak'):
@@ -429,11 +469,12 @@ def gen_and_run(ctx, u, k, api, seed):
     with common.Scratch('vf-c02-') as d:
         root = os.path.join(d, 't')
         layout, dirs, chain, files = build(rng, root, u['depth'],
-                                           u.get('weak') or u.get('stealth'))
+                                           u.get('weak') or u.get('stealth'),
+                                           double=bool(u.get('double')))
         case = {'kind': 'c02', 'depth': u['depth'], 'tamper': u['tamper'],
                 'draw': u['draw'], 'k': k, 'api': api, 'seed': seed,
                 'gen_seed': ctx.seed, 'weak': u.get('weak'),
-                'stealth': u.get('stealth'),
+                'stealth': u.get('stealth'), 'double': u.get('double'),
                 'pre': [None, 'find_timestamp', 'find_dist'][seed % 3]}
         if u.get('twin'):
             case['twin'] = True
@@ -453,7 +494,8 @@ def run_unit(u, ctx):
     with common.Scratch('vf-c02-') as d:
         root = os.path.join(d, 't')
         layout, dirs, chain, files = build(rng, root, u['depth'],
-                                           u.get('weak') or u.get('stealth'))
+                                           u.get('weak') or u.get('stealth'),
+                                           double=bool(u.get('double')))
         nchain = len(chain)
     n = 0
     for k in range(1, nchain):
@@ -468,5 +510,5 @@ def replay(case, ctx):
     ctx.seed = case.get('gen_seed', ctx.seed)
     u = {'depth': case['depth'], 'tamper': case['tamper'], 'draw': case['draw'],
          'weak': case.get('weak'), 'stealth': case.get('stealth'),
-         'twin': case.get('twin')}
+         'twin': case.get('twin'), 'double': case.get('double')}
     gen_and_run(ctx, u, case['k'], case['api'], case['seed'])
